@@ -24,6 +24,8 @@ driver adds one assumption per alternative and re-evaluates from scratch, so
 every result ("world") comes with the list of assumptions it holds under.
 """
 import re
+import sys
+sys.setrecursionlimit(50000)
 from facts import strip_ty, ty_head, ty_args
 
 OPTION = 'std::option::Option'
@@ -252,6 +254,42 @@ class Policy:
         return self.inline(path)
 
 
+def file_of(F, path):
+    """source file a function (or a closure inside it) is written in"""
+    q = path
+    while q and q not in F.fns and '::{closure' in q:
+        q = q[:q.rindex('::{closure')]
+    f = F.fns.get(q)
+    if f is None:
+        h = F.hir.get(path)
+        sp = (h or {}).get('sp', '') if isinstance(h, dict) else ''
+        return sp.split(':')[0] if sp else None
+    return (f.get('sp') or '').split(':')[0] or None
+
+
+def local_policy(F, root, events=(), keep=(), also_inline=(), **kw):
+    """The policy the rules use to look *through* helper functions: every function written in the same source
+    file as `root` (helpers extracted next to it, private methods, closures) is inlined, whatever its name or
+    visibility; calls matching `events` are kept opaque and recorded in the trace; calls matching `keep` are
+    kept opaque without being recorded.  Functions of other files stay opaque unless `also_inline` matches.
+    This makes a rule's verdict independent of how the code under analysis is split into helpers."""
+    rf = file_of(F, root)
+    ev = [re.compile(x) for x in events]
+    kp = [re.compile(x) for x in keep]
+    ai = [re.compile(x) for x in also_inline]
+
+    def is_event(p):
+        return any(r.search(p) for r in ev)
+
+    def inline(p):
+        if is_event(p) or any(r.search(p) for r in kp):
+            return False
+        if any(r.search(p) for r in ai):
+            return True
+        return p in F.hir and file_of(F, p) == rf
+    return Policy(effects=is_event, inline=inline, **kw)
+
+
 PANIC_FNS = ('std::panicking::', 'std::rt::begin_panic', 'std::rt::panic_fmt', 'std::process::abort',
              'std::option::unwrap_failed', 'std::result::unwrap_failed', 'std::option::expect_failed',
              'std::rt::panic_display', 'std::intrinsics::unreachable', 'std::intrinsics::abort')
@@ -272,8 +310,8 @@ class Evaluator:
         """evaluate one HIR node of fn_path in a prepared environment (local id -> term)"""
         def thunk(st):
             from copy import copy
-            st.frames.append(Frame(fn_path, env))
             e2 = dict(env)
+            st.frames.append(Frame(fn_path, e2))
             if node.get('k') == 'Block' and 'stmts' in node:
                 return st.block(node, e2)
             return st.expr(node, e2)
